@@ -209,7 +209,7 @@ func Run[C any](t *testing.T, unit string, gen func(*rapid.T) C, run func(C) Res
 			fmt.Printf("REPLAY-FAIL unit=%s\n%s\n", unit, r.Err)
 			t.Fatalf("replayed case fails: %s", r.Err)
 		}
-		fmt.Printf("REPLAY-PASS unit=%s\n", unit)
+		fmt.Printf("REPLAY-PASS unit=%s labels=%v inconclusive=%q excluded=%q\n", unit, r.Labels, r.Inconcl, r.Excluded)
 		return
 	}
 	st := newStats(unit)
